@@ -29,6 +29,12 @@ SCENARIOS = [
     # relative program name + different working directory, with a decoy of the same name there
     ("wdrel", {"progx": "702f78", "wdx": "656c73657768657265",
                "_setup": "MKDIRS 70 ; LINKVC 0 78 right ; CHDIR 2e2e ; MKDIRS 656c736577686572652f70 ; LINKVC 0 78 wrong ; CHDIR 2e2e2f2e2e"}),
+    # caller without standard streams: every descriptor the library obtains lands on 0-2 and is moved
+    ("closedstd", {"_setup": "CLOSE012 7", "_cmask": 7}),
+    ("closedstd-path", {"in": 7, "out": 7, "err": 1, "nb": 1, "_setup": "CLOSE012 3", "_cmask": 3}),
+    # relative program under a working directory longer than one getcwd buffer step
+    # (the resolved name is then longer than PATH_MAX, so exec itself must fail with ENAMETOOLONG)
+    ("wdreldeep", {"progx": "2e2f78", "wdx": "2f", "_setup": "CWDPAD 5000 ; LINKVC 0 78 right", "_natural": -E.ENAMETOOLONG}),
 ]
 
 PLAUSIBLE = {
@@ -39,6 +45,8 @@ PLAUSIBLE = {
     "waitpid": E.ECHILD, "kill": E.EPERM, "poll": E.ENOMEM, "close": E.EIO, "fileno": E.EBADF,
     "sigemptyset": E.EINVAL, "sigfillset": E.EINVAL,
 }
+# value faults (the call succeeds with a value this machine cannot produce for real) -> the error start must report
+VALUE_FAULTS = {30001: E.EMFILE, 30002: E.EMFILE}   # getrlimit: unlimited / just above the library's ceiling
 INTERRUPTIBLE = {"read", "write", "open", "waitpid", "close", "dup2", "poll"}
 NOT_FAULTED = {"free", "_exit", "clock_gettime", "other"}
 
@@ -64,12 +72,15 @@ def script_for(name, opts, faults, r, natural=False, tail=0):
     o = dict(opts)
     o["ident"] = 1
     setup = o.pop("_setup", None)
+    o.pop("_cmask", None)
+    nat = o.pop("_natural", None)
     s1 = start_tokens(0, o)
     parts = [pre]
     if ftok:
         parts.append(ftok)
     if setup:
-        parts += ["N 0", setup, s1, (TAIL % s1) if tail == 0 else TAIL_NORESTART]
+        s2 = start_tokens(0, {"ident": 1}) if nat is not None else s1
+        parts += ["N 0", setup, s1, (TAIL % s2) if tail == 0 else TAIL_NORESTART]
         return " ; ".join(parts), mask
     if tail == 1:
         parts += ["N 0", s1, TAIL_NORESTART]
@@ -164,6 +175,8 @@ def variants(site):
     out = [(side, fn, k, PLAUSIBLE.get(fn, E.EIO))]
     if fn in INTERRUPTIBLE:
         out.append((side, fn, k, E.EINTR))
+    if fn == "getrlimit":
+        out += [(side, fn, k, v) for v in VALUE_FAULTS]
     return out
 
 
@@ -198,6 +211,16 @@ NATURAL = [
 ]
 
 
+def extra_meta(opts):
+    m = {}
+    if "_cmask" in opts:
+        m["cmask"] = opts["_cmask"]
+    if "_natural" in opts:
+        m["natural"] = opts["_natural"]
+        m["natf"] = 1
+    return m
+
+
 def gen(prop, tier, seed):
     scen_bin = os.environ["VERIF_SCEN_ND"]
     vchild = os.environ["VERIF_VCHILD"]
@@ -214,7 +237,7 @@ def gen(prop, tier, seed):
             # or a second start that fails early
             tail = [0, 0, 0, 1, 0, 2][fi % 6]
             script, mask = script_for(name, opts, [f], r, tail=tail)
-            cases.append(Case("f%d" % idx, script, {"scenario": name, "faults": [f], "mask": mask, "fork": opts.get("fork", 0), "tail": tail},
+            cases.append(Case("f%d" % idx, script, dict(extra_meta(opts), **{"scenario": name, "faults": [f], "mask": mask, "fork": opts.get("fork", 0), "tail": tail}),
                               "fault/%s/%s:%s:%d:%d" % ((name,) + f)))
             idx += 1
         # pairs
@@ -235,7 +258,7 @@ def gen(prop, tier, seed):
             fa = r2.choice(variants(a))
             fb = r2.choice(variants(b))
             script, mask = script_for(name, opts, [fa, fb], r2)
-            cases.append(Case("f%d" % idx, script, {"scenario": name, "faults": [fa, fb], "mask": mask, "fork": opts.get("fork", 0)},
+            cases.append(Case("f%d" % idx, script, dict(extra_meta(opts), **{"scenario": name, "faults": [fa, fb], "mask": mask, "fork": opts.get("fork", 0)}),
                               "fault/%s/%s:%s:%d:%d+%s:%s:%d:%d" % ((name,) + fa + fb)))
             idx += 1
     if prop in ("C05", "C06"):
@@ -373,14 +396,14 @@ def judge(prop, case, log):
                     V("pid-not-forked-by-library@" + fk, "pid %d, forks %s" % (pid, forks))
                 if hellos and not m.get("fork"):
                     exe = bytes.fromhex(hellos[0]["exe"]).decode("utf-8", "replace")
-                    if m["scenario"] == "wdrel":
+                    if m["scenario"] in ("wdrel", "wdreldeep"):
                         if hellos[0].get("tag") != "right":
                             V("wrong-program-executed@" + fk, "the relative program name was resolved to %s (tag %s), not to the one in the parent's working directory" % (exe, hellos[0].get("tag")))
                     elif not exe.endswith("/vc"):
                         V("wrong-program-executed@" + fk, "executed %s" % exe)
         elif r < 0:
             obs["failed_starts"] += 1
-            allowed = set(-f[3] for f in fired)
+            allowed = set(-VALUE_FAULTS.get(f[3], f[3]) for f in fired)
             if "natural" in m:
                 obs["natural_checked"] += 1
                 allowed = {m["natural"]} | (allowed if m.get("natf") else set())
@@ -424,7 +447,8 @@ def judge(prop, case, log):
             V("memory-leak@" + fk, "%d allocations never released" % fin["live_allocs"])
         snap0 = [l for l in log.lines if l.get("snap") == 0]
         if snap0:
-            before = sorted((f[0], f[1], f[2]) for f in snap0[0]["fds"])
+            cmask = m.get("cmask", 0)
+            before = sorted((f[0], f[1], f[2]) for f in snap0[0]["fds"] if not (f[0] < 3 and cmask & (1 << f[0])))
             after = sorted((f[0], f[1], f[2]) for f in fin["fds"])
             if before != after:
                 V("fd-table-changed@" + fk, "descriptor table before %s, after %s" % (before, after))
@@ -433,6 +457,8 @@ def judge(prop, case, log):
         if fin.get("kids") != "none" and (waited_ok or start_failed):
             V("process-left@" + fk, "a child is left although %s (%s)" % ("a wait succeeded" if waited_ok else "start failed", fin.get("kids")))
         for h, st, kind, isopen in fin.get("user_objs", []):
+            if kind == "std" and m.get("cmask", 0) & (1 << st):
+                continue   # closed by the scenario itself before the library was called
             if not isopen:
                 V("user-object-closed:%s@%s" % (kind, fk), "the %s supplied for stream %d is no longer open" % (kind, st))
         return vs, obs, bool(fired) or not faults
